@@ -187,6 +187,68 @@ pub fn check(case: &Case, tpl: &Value, st: &mut Stats) {
     }
 }
 
+/// Sites whose operations were never strings: built through the public API
+/// (`Transform2::identity()`, `Transform2::new`, `From<Matrix3>`) into a hand-made `WyckoffSite`.
+/// The same group, the same placements.
+pub fn check_constructed(case: &Case, how: u64, st: &mut Stats) {
+    use packing::traits::Basis;
+    use packing::wallpaper::WyckoffSite;
+    use packing::{OccupiedSite, Transform2};
+    st.eval();
+    let g = match groups::group(&case.group) {
+        Some(g) => g,
+        None => return,
+    };
+    let ops: Vec<Transform2> = g
+        .ops
+        .iter()
+        .map(|o| {
+            let ident = o.w == [[1, 0], [0, 1]] && o.t2 == [0, 0];
+            let a = Affine { m: [[o.w[0][0] as f64, o.w[0][1] as f64], [o.w[1][0] as f64, o.w[1][1] as f64]], t: [o.t2[0] as f64 / 2., o.t2[1] as f64 / 2.] };
+            match (ident, how % 3) {
+                (true, 0) => Transform2::identity(),
+                (true, 1) => Transform2::new(0., (0., 0.)),
+                _ => crate::libx::from_affine(&a),
+            }
+        })
+        .collect();
+    let site = OccupiedSite::from_wyckoff(&WyckoffSite { letter: 'a', symmetries: ops, num_rotations: 1, mirror_primary: false, mirror_secondary: false });
+    let inside = case.x.abs() <= 0.5 && case.y.abs() <= 0.5 && case.phi >= 0. && case.phi <= 2. * PI;
+    let site = if inside && how % 2 == 0 {
+        {
+            let mut b = site.get_basis(1);
+            if b.len() != 3 {
+                return;
+            }
+            b[0].set_value(case.x);
+            b[1].set_value(case.y);
+            b[2].set_value(case.phi);
+        }
+        site
+    } else {
+        // any coordinates: through the site's own JSON form
+        let mut v = match serde_json::to_value(&site) {
+            Ok(v) => v,
+            Err(_) => return,
+        };
+        v["x"] = json!(case.x);
+        v["y"] = json!(case.y);
+        v["angle"] = json!(case.phi);
+        match serde_json::from_value::<OccupiedSite>(v) {
+            Ok(s) => s,
+            Err(_) => return,
+        }
+    };
+    let pl: Vec<Affine> = site.positions().map(|t| to_affine(&t)).collect();
+    st.count("sites_with_constructed_operations");
+    let before = st.violations.len();
+    let _ = match_placements(case, &g, &pl, case.x, case.y, case.phi, st, true);
+    for v in st.violations.iter_mut().skip(before) {
+        v.kind = "c15.constructed".into();
+        v.case = json!({"group": case.group, "x": case.x, "y": case.y, "phi": case.phi, "dx": 0, "dy": 0, "dphi": 0, "constructed": how});
+    }
+}
+
 /// the placements are handed out as iterators: every way of consuming one must walk the same
 /// sequence (see iterproto)
 pub fn check_protocol(case: &Case, tpl: &Value, proto_seed: u64, st: &mut Stats) {
@@ -302,7 +364,7 @@ pub fn check_history(group: &str, tpl: &Value, hist_seed: u64, ops: usize, st: &
 }
 
 pub fn run(ctx: &Ctx) {
-    ctx.set_rule("states built from a JSON template with exact site coordinates: x,y uniform in [-1/2,1/2), exactly +-1/2, 0, +-1/4, 1..4 ulps either side of +-1/2, tiny/denormal negatives; orientation incl. 0, pi, 2pi; relative_positions() matched one-to-one to the ITA operations (linear part W.Rot(phi) to 1e-15, translation congruent mod 1 to W(x,y)+w to 1e-12, inside [-1/2,1/2)); plus equivalence of (x+-k, y+-k, phi+-2pi) to 1e-9 on the torus; plus histories on ONE reused state: 60 random set / reset / sampled-set operations through its own basis handles, placements checked against the coordinates the site holds after each; plus the iterator protocol: positions() / relative_positions() / cartesian_positions() driven by random scripts of next, nth, take, size_hint and then count / last / step_by / skip / fold / collect, compared element for element with the collected sequence; non-trivial = group order >= 2 or a coordinate on/next to a face or special position; distinct by exact coordinate bits");
+    ctx.set_rule("states built from a JSON template with exact site coordinates: x,y uniform in [-1/2,1/2), exactly +-1/2, 0, +-1/4, 1..4 ulps either side of +-1/2, tiny/denormal negatives; orientation incl. 0, pi, 2pi; relative_positions() matched one-to-one to the ITA operations (linear part W.Rot(phi) to 1e-15, translation congruent mod 1 to W(x,y)+w to 1e-12, inside [-1/2,1/2)); plus equivalence of (x+-k, y+-k, phi+-2pi) to 1e-9 on the torus; plus histories on ONE reused state: 60 random set / reset / sampled-set operations through its own basis handles, placements checked against the coordinates the site holds after each; plus sites whose operations were built through the API (Transform2::identity(), ::new, From<Matrix3>) into hand-made Wyckoff sites, coordinates set through the handles or through JSON (also outside the cell); plus the iterator protocol: positions() / relative_positions() / cartesian_positions() driven by random scripts of next, nth, take, size_hint and then count / last / step_by / skip / fold / collect, compared element for element with the collected sequence; non-trivial = group order >= 2 or a coordinate on/next to a face or special position; distinct by exact coordinate bits");
     let n = ctx.tier.pick(25_000u64, 3_000_000u64);
     let tpls: Vec<(String, Value)> = match groups::NAMES.iter().map(|g| template(g).map(|t| (g.to_string(), t))).collect::<Result<Vec<_>, _>>() {
         Ok(t) => t,
@@ -318,6 +380,15 @@ pub fn run(ctx: &Ctx) {
             check(&c, tpl, st);
             if rng.gen_range(0, 8) == 0 {
                 check_protocol(&c, tpl, rng.gen(), st);
+            }
+            if rng.gen_range(0, 4) == 0 {
+                // also with the site whole lattice vectors outside the cell
+                let mut c2 = c.clone();
+                if rng.gen_bool(0.3) {
+                    c2.x += c.dx as f64;
+                    c2.y += c.dy as f64;
+                }
+                check_constructed(&c2, rng.gen_range(0, 6), st);
             }
         }
         for _ in 0..(n / 200).max(20) {
@@ -336,9 +407,10 @@ pub fn replay(ctx: &Ctx, case: &Value) {
         }
     } else if let Ok(c) = serde_json::from_value::<Case>(case.clone()) {
         if let Ok(tpl) = template(&c.group) {
-            match case["proto_seed"].as_u64() {
-                Some(ps) => check_protocol(&c, &tpl, ps, &mut st),
-                None => check(&c, &tpl, &mut st),
+            match (case["proto_seed"].as_u64(), case["constructed"].as_u64()) {
+                (Some(ps), _) => check_protocol(&c, &tpl, ps, &mut st),
+                (_, Some(how)) => check_constructed(&c, how, &mut st),
+                _ => check(&c, &tpl, &mut st),
             }
         }
     }
